@@ -26,6 +26,8 @@ macro_rules! proof {
         #[kani::stub(rust_decimal::Decimal::checked_sub, $crate::env::decimal::checked_sub)]
         #[kani::stub(<rust_decimal::Decimal as rust_decimal::MathematicalOps>::sqrt, $crate::env::decimal::sqrt)]
         #[kani::stub(<smol_str::SmolStr as core::clone::Clone>::clone, $crate::env::misc::smolstr_clone)]
+        #[kani::stub(<rust_decimal::Decimal as rust_decimal::prelude::FromPrimitive>::from_f64, $crate::env::misc::decimal_from_f64)]
+        #[kani::stub(alloc::fmt::format, $crate::env::misc::fmt_format_empty)]
         #[kani::stub(chrono::Utc::now, $crate::env::misc::utc_now)]
         #[kani::stub($crate::env::misc::is_native, $crate::env::misc::is_native_false)]
         $(#[$m])*
@@ -35,6 +37,8 @@ macro_rules! proof {
 
 #[cfg(kani)]
 pub mod gens;
+#[cfg(kani)]
+pub mod world;
 
 #[cfg(kani)]
 mod c06_binance_l2;
@@ -50,6 +54,16 @@ mod c16_tearsheet;
 mod c14_connectivity;
 #[cfg(kani)]
 mod c01_orders;
+#[cfg(kani)]
+mod c15_unrealised;
+#[cfg(kani)]
+mod c05_orderbook;
+#[cfg(kani)]
+mod c09_no_rollback;
+#[cfg(kani)]
+mod c03_requests;
+#[cfg(kani)]
+mod c04_index_names;
 
 /// Concrete-playback tests written by the driver (`/verif/check`) when a harness fails; runs the
 /// harness natively, without stubs, against the real crates.
